@@ -453,6 +453,10 @@ func sigVariants(alg string, sig []byte) map[string][]byte {
 	}
 	if alg == "rsa2048" || alg == "rsa3072" {
 		res["rsa-leading-zero"] = append([]byte{0x00}, sig...)
+		if len(sig) > 1 && sig[0] == 0 {
+			// the signature as a minimal big-endian integer (what a big-integer based signer would emit)
+			res["rsa-leading-zero-stripped"] = bytes.TrimLeft(sig, "\x00")
+		}
 	}
 	if alg == "ed25519" && len(sig) == 64 {
 		// s + L (the group order): same signature value modulo L
@@ -493,6 +497,9 @@ var c08BaseSpecs = map[string]TokSpec{
 	// integers and string / bytes / list lengths on both sides of every CBOR head-width boundary (23|24, 2^8, 2^16, 2^32)
 	"inv-bounds": {Kind: "inv", Opts: map[string]string{"args": "bounds", "nonce": "12", "iat": "none"}},
 	"dlg-bounds": {Kind: "dlg", Opts: map[string]string{"meta": "bounds", "nonce": "12"}},
+	// RSA only: the nonce is a counter advanced until the (deterministic) signature starts with a zero octet
+	"dlg-sig0": {Kind: "dlg", Opts: map[string]string{"nonce": "ctr:search"}},
+	"inv-sig0": {Kind: "inv", Opts: map[string]string{"nonce": "ctr:search", "iat": "none"}},
 }
 
 func c08Base(base, alg string) []byte {
@@ -503,6 +510,29 @@ func c08Base(base, alg string) []byte {
 	defer headerMu.Unlock()
 	if b, ok := baseCache[id]; ok {
 		return b
+	}
+	if spec.Opts["nonce"] == "ctr:search" {
+		for i := 0; i < 100000; i++ {
+			sp := spec
+			sp.Opts = map[string]string{}
+			for k, v := range spec.Opts {
+				sp.Opts[k] = v
+			}
+			sp.Opts["nonce"] = fmt.Sprintf("ctr:%d", i)
+			tok, key, err := BuildToken(sp)
+			if err != nil {
+				panic(err)
+			}
+			b, _, err := tok.(sealer).ToSealed(key.Priv)
+			if err != nil {
+				panic(err)
+			}
+			if sig := splitEnvelope(b).Sig; len(sig) > 0 && sig[0] == 0 {
+				baseCache[id] = b
+				return b
+			}
+		}
+		panic("harness: no signature with a leading zero octet in 100000 attempts")
 	}
 	tok, key, err := BuildToken(spec)
 	if err != nil {
@@ -546,22 +576,31 @@ func c08CanonSub() *engine.Sub {
 	return &engine.Sub{
 		Name:   "canonical-bytes",
 		Repeat: true,
-		Rule:   "sealed base tokens are parsed with the harness' own CBOR item parser; every single (quick) / every pair (thorough) of data-preserving re-encoding sites is applied: non-minimal head widths, indefinite lengths, chunked strings, map key permutations, narrower floats, undefined for null, spurious tags, extra outer element, trailing bytes; plus key-less signature re-encodings (ECDSA s -> n-s, DER variants, RSA leading zero, Ed25519 s+L). A decoder must reject each re-encoding (two accepted byte strings with the same signed content would have different CIDs); non-trivial = re-encoded bytes differ from the original",
+		Rule:   "sealed base tokens are parsed with the harness' own CBOR item parser; every single (quick) / every pair (thorough) of data-preserving re-encoding sites is applied: non-minimal head widths, indefinite lengths, chunked strings, map key permutations, narrower floats, undefined for null, spurious tags, extra outer element, trailing bytes; plus key-less signature re-encodings (ECDSA s -> n-s, DER variants, RSA leading zero added, and - on RSA tokens whose nonce was searched until the signature starts with a zero octet - stripped; Ed25519 s+L). A decoder must reject each re-encoding (two accepted byte strings with the same signed content would have different CIDs); non-trivial = re-encoded bytes differ from the original",
 		Bound: func(t string) string {
 			if t == "thorough" {
 				return "3 base tokens x 5 algorithms; all single sites and all pairs of sites of distinct kinds on the Ed25519 tokens"
 			}
-			return "3 base tokens x 3 algorithms; all single sites"
+			return "3 base tokens x 3 algorithms (+ 2 RSA-2048 tokens whose signature starts with a zero octet); all single sites"
 		},
 		Gen: func(tier string, emit func(any) bool) {
 			algs := []string{"ed25519", "p256", "secp256k1"}
 			if tier == "thorough" {
 				algs = []string{"ed25519", "p256", "secp256k1", "p384", "rsa2048"}
 			}
+			if tier != "thorough" {
+				algs = append(algs, "rsa2048")
+			}
 			for _, alg := range algs {
 				bases := []string{"dlg", "inv", "dlg2"}
 				if alg == "ed25519" {
 					bases = append(bases, "inv-bounds", "dlg-bounds")
+				}
+				if alg == "rsa2048" {
+					if tier != "thorough" {
+						bases = nil
+					}
+					bases = append(bases, "dlg-sig0", "inv-sig0")
 				}
 				for _, base := range bases {
 					orig := c08Base(base, alg)
@@ -673,7 +712,7 @@ func C08() *engine.Check {
 	return &engine.Check{
 		Property: "C08",
 		Level:    "model_checking",
-		Subs:     []*engine.Sub{c08HashSub(), c08CanonSub(), c08ConcSub(), concRaceSub("C08")},
+		Subs:     []*engine.Sub{c08HashSub(), c08CanonSub(), carLabelSub("C08"), c08ConcSub(), concRaceSub("C08")},
 		Assumptions: []string{
 			"reference CID = 0x01 0x71 0x12 0x20 || crypto/sha256(bytes)",
 			"the CBOR item parser/re-encoder (refmodel/cbor.go) is independent of go-ipld-prime; a re-encoding is data-preserving by construction",
